@@ -52,6 +52,11 @@ fn geometry(edge: usize, n_points: u8, ends: Option<(usize, usize)>) -> Vec<(f32
         let vp = |v: usize| (-120.0 + v as f32 * 0.03125, 10.0 + v as f32 * 0.0625);
         pts[0] = vp(s);
         pts[n - 1] = vp(d);
+        // every third such geometry stores a point twice in a row (a digitising artefact that
+        // real tables contain): stored geometries are reproduced as stored
+        if n >= 3 && edge % 3 == 1 {
+            pts[1] = pts[0];
+        }
     }
     pts
 }
@@ -296,7 +301,16 @@ impl Prop for C20 {
         }
         let rows = case.geometry_rows.unwrap_or(m).min(m);
         let upath = dir.file("uuids.txt");
-        let utext: String = (0..sc.spec.net.n()).map(|v| format!("{}\n", uuid_of(v))).collect();
+        // in the shared-junction half of the cases every fourth vertex has no external
+        // identifier: its row of the table is empty (and must stay that vertex's row)
+        let uuid_for = |v: usize| -> String {
+            if case.shared_junctions && v % 4 == 2 {
+                String::new()
+            } else {
+                uuid_of(v)
+            }
+        };
+        let utext: String = (0..sc.spec.net.n()).map(|v| format!("{}\n", uuid_for(v))).collect();
         let _ = write_text(&upath, &utext, false);
 
         let query = json!({"origin_vertex": sc.o, "destination_vertex": sc.d.unwrap(), "note": "c20"});
@@ -540,8 +554,8 @@ impl Prop for C20 {
                 let mut output = json!({"request": query});
                 match up.process(&mut output, &result) {
                     Ok(()) => {
-                        let ok = output.get("origin_vertex_uuid").and_then(|v| v.as_str()) == Some(&uuid_of(sc.o))
-                            && output.get("destination_vertex_uuid").and_then(|v| v.as_str()) == Some(&uuid_of(sc.d.unwrap()));
+                        let ok = output.get("origin_vertex_uuid").and_then(|v| v.as_str()) == Some(&uuid_for(sc.o))
+                            && output.get("destination_vertex_uuid").and_then(|v| v.as_str()) == Some(&uuid_for(sc.d.unwrap()));
                         if !ok {
                             o.fail(
                                 "C20/uuid/identifiers-are-not-those-of-the-matched-vertices",
